@@ -213,6 +213,18 @@ PENDING = {}
 ALL = ['C%02d' % i for i in range(1, 21)]
 
 
+# generator-grain / object-identity specifications added after the seeding rounds 5-7 (DESIGN.md section 5, first paragraph)
+SESS = ('; TLC model checking of Sessions_MC (the parser object at generator grain: every schedule of requests, single next() '
+        'calls and option changes over 2-3 live listings, misplaced-state variants rejected) and validation of recorded '
+        'sessions of the real object by the state-machine validator Sessions_Val')
+READ = ('; TLC model checking of Readers_MC (several reader objects, own / shared table pairs, listings read in any order) and '
+        'validation of recorded reader sessions by Readers_Val')
+DISP = ('; TLC model checking of Dispatch_MC (decoder, pairing domain and helper records = function of the fed object\'s own '
+        'code table; memo variants rejected) with TLC-exported behaviours replayed on real parser and dict objects')
+EXTRA = {'C02': READ, 'C03': READ, 'C16': READ, 'C06': SESS, 'C12': SESS, 'C13': SESS, 'C14': SESS, 'C15': SESS,
+         'C19': SESS + DISP, 'C07': SESS + DISP, 'C04': DISP, 'C10': DISP, 'C17': DISP, 'C20': DISP}
+
+
 def main():
     checks = []
     for pid in ALL:
@@ -228,7 +240,7 @@ def main():
             'engine': 'tlc+harness',
             'level_claimed': {'category': 'model_checking', 'text': c['text'], 'design_ref': 'DESIGN.md §' + c['design']},
             'level_note': c['note'],
-            'technique': c['technique'],
+            'technique': c['technique'] + EXTRA.get(pid, ''),
         })
     na = [{'property_id': p, 'reason': PENDING.get(p, 'check not built yet in this round (planned, see DESIGN.md §5)')}
           for p in ALL if p not in CHECKS]
